@@ -13,6 +13,7 @@ R03.2 (K2) listener: the confirmation Message::Protocol(p) is built only when th
       was flushed; `ls` is answered with the supported list
 R03.3 (K2) WebRTC dialer (message based): register_response succeeds only for a protocol equal to the proposed main or a proposed
       fallback name
+R03.5 (typestate) re-entrancy: an arm that returns Pending parks the same state variant it was entered with (dialer and listener)
 R03.4 (K7) transparency: in the Completed state Negotiated::{poll_read, poll_write, poll_flush, poll_close} forward to the inner
       stream with the caller's buffer and return its result unmodified
 Not decided: agreement on the *first* common name for all list pairs, termination for disjoint lists, behaviour under all byte
@@ -266,8 +267,46 @@ def r03_4(ctx, fx):
                     ctx.ob("R03.4", "Negotiated::%s/caller-buffer-passed-through" % name, org in ("_3", "_3*"), site=fn.site(c.node), cfg=fx.cfg, detail="origin of the buffer argument: %s" % org)
 
 
+def r03_5(ctx, fx):
+    """re-entrancy of the negotiation futures: they take the state out with mem::replace(state, Done); whenever an arm returns
+    Pending it must park the *same* state variant again, otherwise the next poll repeats (or skips) a step - e.g. a proposal is
+    put on the wire twice"""
+    for key, adt, who in ((D, "dialer_select::State", "dialer"), (L, "listener_select::State", "listener")):
+        fn = ctx.fn(fx, key, "R03.5")
+        if fn is None:
+            continue
+        heads = [c for c in fn.calls(r"mem::replace$")]
+        sws = [sw for sw in fn.discr_switches() if sw[2] and sw[2].endswith(adt) and heads and sw[1][0] in fn.copies_of(heads[0].dest[0])]
+        ctx.anchor("R03.5", "%s: match on mem::replace(state, Done)" % who, len(sws), 1, cfg=fx.cfg)
+        pend = [n for n, sh in fn.exits() if any(x.startswith("Pending") for x in sh)]
+        for sw in sws[:1]:
+            for var in list(sw[3].keys()) + list(sw[5]):
+                if var == "Done":
+                    continue
+                e = fn.variant_edges(sw, var)
+                starts = [n for n, l in fn.succs(sw[0]) if l in e]
+                restore = [n for n, st in fn.aggregates(re.escape(adt) + "$", var)]
+                # the aggregate must also be stored into the state place afterwards; treat the aggregate site as the restore
+                reach = fn.reach(starts, avoid=[h.node for h in heads])
+                ps = [n for n in pend if n in reach]
+                if not ps:
+                    continue
+                w = fn.witness_path(starts, ps, avoid=restore + [h.node for h in heads])
+                ctx.ob("R03.5", "%s/%s:Pending-parks-the-same-state" % (who, var), w is None, site=fn.site(sw[0]), cfg=fx.cfg,
+                       detail="a path from the %s arm to Poll::Pending that does not re-create State::%s: %s" % (var, var, fn.path_sites(w) if w else None))
+                # and no *other* variant is parked on the way to Pending
+                others = [n for v2 in list(sw[3].keys()) + list(sw[5]) if v2 not in (var, "Done") for n, st in fn.aggregates(re.escape(adt) + "$", v2)]
+                bad = []
+                for o in others:
+                    if o in reach and any(p2 in fn.reach([o], after=True, avoid=restore + [h.node for h in heads]) for p2 in ps):
+                        bad.append(fn.site(o))
+                ctx.ob("R03.5", "%s/%s:no-other-state-parked-before-Pending" % (who, var), not bad, site=fn.site(sw[0]), cfg=fx.cfg,
+                       detail="other state variants stored on a path from the %s arm to Pending: %s" % (var, bad))
+
+
 def run(ctx):
     fx = ctx.facts("default")
+    r03_5(ctx, fx)
     r03_1(ctx, fx)
     r03_2(ctx, fx)
     r03_3(ctx, fx)
